@@ -13,6 +13,13 @@ package sqlx
 // The flush timer of a BulkInserter is not replaceable from here, so only tick-free schedules are
 // given to this driver (a real tick in the middle only makes the run deviate from the schedule).
 // No expectations here: TLC validates the recorded trace against specs/executors/PE.tla.
+//
+// White box (zz_verif_c11_wb_test.go; stand-ins in zz_verif_c11_nowb_test.go, VERIF_NOWB=1): the
+// threshold constant and the executor behind the inserter. Without them the threshold is measured
+// (biThreshold: the largest statement a single producer provokes, seen more than once) and the Wait
+// steps of a schedule are left out; quiescence is then reached by a final Flush and by waiting until
+// the connection has seen as many rows as were inserted (or the watchdog expires - the spec
+// classifies that: at `end` every inserted row must have been in a statement).
 
 import (
 	"bytes"
@@ -24,6 +31,7 @@ import (
 	"strconv"
 	"strings"
 	"sync"
+	"sync/atomic"
 	"testing"
 	"time"
 
@@ -54,6 +62,11 @@ type biDriver struct {
 	em    *verifEmitter
 	bi    *BulkInserter
 	scale int
+
+	wait     func() // Wait of the executor behind bi, if reachable
+	hasWait  bool
+	inserted int32 // rows whose Insert was called
+	done     int32 // rows the connection has seen in statements that returned
 
 	mu      sync.Mutex
 	gates   map[int]*biGate
@@ -93,6 +106,7 @@ func (c *biConn) Exec(query string, args ...any) (sql.Result, error) {
 		pn = <-g.rel
 	}
 	d.em.Emit(verifEv{"e": "execEnd", "b": g.b, "panic": pn})
+	atomic.AddInt32(&d.done, int32(len(ids)))
 	if pn {
 		panic("verif: Exec panics")
 	}
@@ -154,6 +168,7 @@ func (d *biDriver) call(p int, o biOp) {
 	switch o.op {
 	case "add": // one Add of the schedule = `scale` Inserts
 		for id := (o.t-1)*d.scale + 1; id <= o.t*d.scale; id++ {
+			atomic.AddInt32(&d.inserted, 1)
 			d.em.Emit(verifEv{"e": "addStart", "p": p, "t": id})
 			if err := d.bi.Insert(id); err != nil {
 				panic(err)
@@ -165,8 +180,11 @@ func (d *biDriver) call(p int, o biOp) {
 		d.bi.Flush()
 		d.em.Emit(verifEv{"e": "flushEnd", "p": p})
 	case "wait":
+		if !d.hasWait {
+			return // an inserter has no Wait of its own
+		}
 		d.em.Emit(verifEv{"e": "waitStart", "p": p})
-		d.bi.executor.Wait()
+		d.wait()
 		d.em.Emit(verifEv{"e": "waitEnd", "p": p})
 	}
 }
@@ -212,10 +230,23 @@ func (d *biDriver) finish(watchdog time.Duration) bool {
 	}
 	if ok {
 		fin := make(chan struct{})
-		go func() { d.call(0, biOp{op: "wait"}); close(fin) }()
+		go func() {
+			defer close(fin)
+			if d.hasWait {
+				d.call(0, biOp{op: "wait"})
+				return
+			}
+			// quiescence without Wait: an explicit Flush after the last Insert, then the background
+			// goroutine works off what was handed to it
+			d.call(0, biOp{op: "flush"})
+			deadline := time.Now().Add(watchdog)
+			for atomic.LoadInt32(&d.done) < atomic.LoadInt32(&d.inserted) && time.Now().Before(deadline) {
+				time.Sleep(200 * time.Microsecond)
+			}
+		}()
 		select {
 		case <-fin:
-		case <-time.After(watchdog):
+		case <-time.After(2 * watchdog):
 			ok = false
 		}
 	}
@@ -258,14 +289,22 @@ func biQuiescent() bool {
 		if biBlocked[state] {
 			continue
 		}
-		inner := ""
-		for _, ln := range strings.Split(s, "\n")[1:] {
+		inner, file := "", ""
+		lines := strings.Split(s, "\n")
+		for i, ln := range lines[1:] {
 			if (strings.Contains(ln, "core/executors.") || strings.Contains(ln, "core/stores/sqlx.")) && !strings.HasPrefix(ln, "\t") {
 				inner = ln
+				if i+2 < len(lines) {
+					file = lines[i+2]
+				}
 				break
 			}
 		}
 		if strings.Contains(inner, "(*PeriodicalExecutor).Wait(") {
+			continue
+		}
+		// a goroutine sleeping in library code (not in a driver file) polls: it waits for others
+		if state == "sleep" && inner != "" && !strings.Contains(file, "zz_verif_") {
 			continue
 		}
 		return false
@@ -290,6 +329,69 @@ func biSettle(limit time.Duration) bool {
 	}
 }
 
+// biThreshold: the number of buffered rows at which an Insert hands the buffer over. White box: the
+// package constant. Otherwise measured through the public API: one producer inserts many rows; the
+// largest statement the connection sees, if seen more than once, is the threshold (a real flush tick
+// in between only makes one statement smaller). ok = false: not determined (steering is skipped).
+var biThr struct {
+	once sync.Once
+	n    int
+	ok   bool
+}
+
+func biThreshold() (int, bool) {
+	biThr.once.Do(func() {
+		if n, ok := biMaxRows(); ok {
+			biThr.n, biThr.ok = n, true
+			return
+		}
+		const total = 20000
+		var mu sync.Mutex
+		sizes := map[int]int{}
+		var done int32
+		conn := &verifBulkConn{fn: func(q string) {
+			n := len(verifRowRe.FindAllStringIndex(q, -1))
+			mu.Lock()
+			sizes[n]++
+			mu.Unlock()
+			atomic.AddInt32(&done, int32(n))
+		}}
+		bi, err := NewBulkInserter(conn, "INSERT INTO t (id) VALUES (?)")
+		if err != nil {
+			return
+		}
+		for id := 1; id <= total; id++ {
+			if bi.Insert(id) != nil {
+				return
+			}
+		}
+		bi.Flush()
+		deadline := time.Now().Add(10 * time.Second)
+		for atomic.LoadInt32(&done) < total && time.Now().Before(deadline) {
+			time.Sleep(200 * time.Microsecond)
+		}
+		mu.Lock()
+		defer mu.Unlock()
+		max := 0
+		for n := range sizes {
+			if n > max {
+				max = n
+			}
+		}
+		if max > 0 && max < total && sizes[max] >= 2 {
+			biThr.n, biThr.ok = max, true
+		}
+	})
+	return biThr.n, biThr.ok
+}
+
+// biInfo: a trace of its own that tells the runner what this tree / build offered (no verdict depends on it)
+func biInfo(em *verifEmitter, thr int, thrOK, hasWait bool, skipped int) {
+	em.Emit(verifEv{"e": "reset", "kind": "none", "thr": 0, "mode": "info"})
+	em.Emit(verifEv{"e": "info", "bi": true, "wb": biWB, "rows": thr, "rowsKnown": thrOK, "wait": hasWait, "skipped": skipped})
+	em.Emit(verifEv{"e": "end", "pending": []string{}})
+}
+
 // TestVerifBISteer replays TLC-generated schedules. Input lines: {"thr":..,"steps":[...]}.
 func TestVerifBISteer(t *testing.T) {
 	em := verifOpen(t)
@@ -297,6 +399,12 @@ func TestVerifBISteer(t *testing.T) {
 	logx.Disable()
 	watchdog := time.Duration(verifEnvInt("VERIF_PE_WATCHDOG_S", 20)) * time.Second
 	hangs := 0
+	rows, rowsOK := biThreshold()
+	hasWait := false
+	if !rowsOK {
+		biInfo(em, 0, false, false, len(verifInput(t)))
+		return
+	}
 	for _, raw := range verifInput(t) {
 		var in struct {
 			Thr   int      `json:"thr"`
@@ -305,20 +413,23 @@ func TestVerifBISteer(t *testing.T) {
 		if err := json.Unmarshal(raw, &in); err != nil {
 			t.Fatal(err)
 		}
-		if in.Thr < 1 || maxBulkRows%in.Thr != 0 {
-			t.Fatalf("threshold %d does not divide maxBulkRows", in.Thr)
+		if in.Thr < 1 {
+			t.Fatalf("threshold %d", in.Thr)
 		}
 		if hangs >= 2 {
 			break
 		}
-		d := &biDriver{t: t, em: em, scale: maxBulkRows / in.Thr, gates: map[int]*biGate{},
+		// in.Thr Adds of the schedule reach the row threshold (rounded up when it does not divide)
+		d := &biDriver{t: t, em: em, scale: (rows + in.Thr - 1) / in.Thr, gates: map[int]*biGate{},
 			pending: map[string]int{}, workers: map[int]chan biOp{}}
 		bi, err := NewBulkInserter(&biConn{d: d}, "INSERT INTO t (id) VALUES (?)")
 		if err != nil {
 			t.Fatal(err)
 		}
 		d.bi = bi
-		em.Emit(verifEv{"e": "reset", "kind": "bulkinserter", "thr": maxBulkRows, "mode": "replay"})
+		d.wait, d.hasWait = biWaiter(bi)
+		hasWait = d.hasWait
+		em.Emit(verifEv{"e": "reset", "kind": "bulkinserter", "thr": rows, "mode": "replay"})
 		for _, s := range in.Steps {
 			switch s.Op {
 			case "add":
@@ -338,4 +449,5 @@ func TestVerifBISteer(t *testing.T) {
 			hangs++
 		}
 	}
+	biInfo(em, rows, true, hasWait, 0)
 }
